@@ -341,7 +341,7 @@ func dischargeVC(x *Exec, o *Obligation, opts verifyOpts) (Result, bool) {
 // verifyFunc runs the symbolic executor on one function and discharges its obligations.
 func (p *Program) verifyFunc(fn *ssa.Function, fc *FuncContract, opts verifyOpts) *FuncResult {
 	fr := p.verifyFuncWith(fn, fc, opts, nil)
-	if fr.Err == nil || fr.exec == nil || len(fr.exec.renameCands) != 1 {
+	if fr.exec == nil || (fr.Err == nil && fr.exec.clauseErr == nil) || len(fr.exec.renameCands) != 1 {
 		return fr
 	}
 	// A name used by invariants/hints no longer denotes a local and several locals are unmentioned: try each.
